@@ -259,33 +259,34 @@ def run(ctx):
                 ctx.count('value+force probes')
                 # ---- forcing with flags: MultiChain.force(tasks, recompute, delete_data) = Chain.force on every member chain
                 from tcv.data_kinds import persisting
-                for ch in chains:
-                    for t in ch.tasks.values():
-                        _ = t.value                     # everything computed and stored
-                R, D = rng.random() < 0.5, rng.random() < 0.5
-                F = {}
-                for ch in chains:
-                    F.update(machine.downstream(ch, [t for t in ch.tasks.values() if t.slugname == t0.slugname]))
-                mod.RUNLOG.clear()
-                mc.force(t0.slugname, recompute=R, delete_data=D)
-                ran = [x[2] for x in mod.RUNLOG]
-                ctx.count(f'force-flags:recompute={R},delete={D}')
-                probe = {'task': t0.slugname, 'recompute': R, 'delete_data': D}
-                for x, t in F.items():
-                    if R:
-                        if ran.count(x) < 1:
-                            ctx.fail('MultiChain.force(recompute=True) did not recompute a task downstream of the named one in some member chain', full_case, {**probe, 'not_run': t.fullname})
-                        elif t._data is None or (persisting(t) and not t.has_data):
-                            ctx.fail('a task recomputed through MultiChain.force has no result afterwards', full_case, {**probe, 'task': t.fullname})
-                    else:
-                        if not t.is_forced:
-                            ctx.fail('MultiChain.force did not mark a task downstream of the named one in some member chain', full_case, {**probe, 'task': t.fullname})
-                        if D and persisting(t) and t.has_data:
-                            ctx.fail('MultiChain.force(delete_data=True) left the stored result of a forced task', full_case, {**probe, 'task': t.fullname})
-                        if not D and persisting(t) and not t.has_data:
-                            ctx.fail('MultiChain.force without delete_data removed a stored result', full_case, {**probe, 'task': t.fullname})
-                for x in set(ran) - set(F):
-                    ctx.fail('MultiChain.force ran a task that is not downstream of the named one', full_case, {**probe, 'ran': [t.fullname for ch in chains for t in ch.tasks.values() if id(t) == x][:1]})
+                for R in (True, False):          # with recomputation first (everything is stored again afterwards), then without
+                    for ch in chains:
+                        for t in ch.tasks.values():
+                            _ = t.value                     # everything computed and stored
+                    D = rng.random() < 0.5
+                    F = {}
+                    for ch in chains:
+                        F.update(machine.downstream(ch, [t for t in ch.tasks.values() if t.slugname == t0.slugname]))
+                    mod.RUNLOG.clear()
+                    mc.force(t0.slugname, recompute=R, delete_data=D)
+                    ran = [x[2] for x in mod.RUNLOG]
+                    ctx.count(f'force-flags:recompute={R},delete={D}')
+                    probe = {'task': t0.slugname, 'recompute': R, 'delete_data': D}
+                    for x, t in F.items():
+                        if R:
+                            if ran.count(x) < 1:
+                                ctx.fail('MultiChain.force(recompute=True) did not recompute a task downstream of the named one in some member chain', full_case, {**probe, 'not_run': t.fullname})
+                            elif t._data is None or (persisting(t) and not t.has_data):
+                                ctx.fail('a task recomputed through MultiChain.force has no result afterwards', full_case, {**probe, 'task': t.fullname})
+                        else:
+                            if not t.is_forced:
+                                ctx.fail('MultiChain.force did not mark a task downstream of the named one in some member chain', full_case, {**probe, 'task': t.fullname})
+                            if D and persisting(t) and t.has_data:
+                                ctx.fail('MultiChain.force(delete_data=True) left the stored result of a forced task', full_case, {**probe, 'task': t.fullname})
+                            if not D and persisting(t) and not t.has_data:
+                                ctx.fail('MultiChain.force without delete_data removed a stored result', full_case, {**probe, 'task': t.fullname})
+                    for x in set(ran) - set(F):
+                        ctx.fail('MultiChain.force ran a task that is not downstream of the named one', full_case, {**probe, 'ran': [t.fullname for ch in chains for t in ch.tasks.values() if id(t) == x][:1]})
             except (KeyError, ValueError):
                 ctx.count('probe-skipped:ambiguous-name')
         # ---- correspondence with the store machine: values everywhere, MultiChain.force (as Chain.force on each member, theorem
@@ -348,9 +349,14 @@ def name_mode_same_file_name(ctx, root):
                 'files': {'run_a/model.json': {'tasks': ['K0', 'K1'], 'x': vals[0]}, 'run_b/model.json': {'tasks': ['K0', 'K1'], 'x': vals[1], 'y': 5},
                           'm1.json': {'uses': ['@cfg/run_a/model.json' + rng.choice(['', ' as n'])]},
                           'm2.json': {'uses': ['@cfg/run_b/model.json' + rng.choice(['', ' as n'])]}}, 'main': 'm1.json'}
+        if k % 2:
+            # ... or two parts of ONE multi-config file (`multi.json#a`, `multi.json#b`)
+            spec['files'] = {'multi.json': {'configs': {'a': {'tasks': ['K0', 'K1'], 'x': vals[0]}, 'b': {'tasks': ['K0', 'K1'], 'x': vals[1], 'y': 5}}},
+                             'm1.json': {'uses': ['@cfg/multi.json#a' + rng.choice(['', ' as n'])]},
+                             'm2.json': {'uses': ['@cfg/multi.json#b' + rng.choice(['', ' as n'])]}}
         b = pl.materialize(spec, root / f'nms{k}', modname=gen.fresh_modname())
         b.module()
-        case = {'probe': 'name mode, same file name in two directories', 'values': vals, 'files': spec['files']}
+        case = {'probe': 'name mode, same file name in two directories / two parts of one file', 'values': vals, 'files': spec['files']}
         ctx.case(case); ctx.count('name-mode-same-file-name')
         try:
             mc = MultiChain([pl.make_config(b, root / f'nmsd{k}', main=m) for m in ('m1.json', 'm2.json')], parameter_mode=False)
